@@ -100,27 +100,31 @@ G12_sniIsOrigin(cfg, st, h) ==
 
 \* --- C07 (first request) / C10 (every later hop)
 Body(cfg) == cfg.bodyLen
+\* the connection broke for writing while this send()'s first request went out (a scripted transport fault): that
+\* request is whatever fragment got through, the call fails - and a later send() of the same prepared request is
+\* judged like any other
+TransportBroke(cfg) == cfg.defaults.wfail /\ ~cfg.second
 \* (a user-defined body whose source fails - cfg.defaults.bodyFails - leaves an upload that the peer can tell is
 \* incomplete: a chunked body is never terminated, a body of declared length is complete only if all of it went out)
 G07_oneWellFormedRequest(cfg, st, h) ==
-  Tun(cfg, st) \/ (h.req.parsed /\ h.req.version = 1 /\ h.req.trailing = 0
+  Tun(cfg, st) \/ TransportBroke(cfg) \/ (h.req.parsed /\ h.req.version = 1 /\ h.req.trailing = 0
                    /\ IF cfg.defaults.bodyFails THEN (h.req.framing = "chunked" => ~h.req.complete) ELSE h.req.complete)
-G07_method(cfg, st, h) == Tun(cfg, st) \/ h.req.method = cfg.req.method
+G07_method(cfg, st, h) == Tun(cfg, st) \/ TransportBroke(cfg) \/ h.req.method = cfg.req.method
 G07_framingConsistent(cfg, st, h) ==
-  Tun(cfg, st) \/
+  Tun(cfg, st) \/ TransportBroke(cfg) \/
   /\ h.req.framing \in {"none", "length", "chunked"}
   /\ h.req.framing = "length" =>
         IF cfg.defaults.bodyFails THEN (Len(h.req.clv) = 1 /\ h.req.rawBodyLen <= h.req.clv[1]) ELSE h.req.clv = <<h.req.rawBodyLen>>
   /\ h.req.framing = "chunked" => (~h.req.midZero /\ h.req.clv = <<>>)
   /\ h.req.framing = "none" => (h.req.rawBodyLen = 0 /\ h.req.clv = <<>>)
 G07_bodyFaithful(cfg, st, h) ==
-  (Tun(cfg, st) \/ (st.hops >= 1 /\ st.lastStatus \notin {307, 308})) \/
+  (Tun(cfg, st) \/ TransportBroke(cfg) \/ (st.hops >= 1 /\ st.lastStatus \notin {307, 308})) \/
   (IF cfg.defaults.bodyFails THEN (h.req.bodyLcp = h.req.bodyLen /\ h.req.bodyLen <= cfg.defaults.failSent)
    ELSE (h.req.bodyLen = Body(cfg) /\ h.req.bodyLcp = Body(cfg)))
 \* the request-target decodes back to the path and query of the URL asked for, and carries no fragment
 G07_target(cfg, st, h) ==
-  Tun(cfg, st) \/ (NormPath(h.req.url.path) = NormPath(st.cur.path) /\ h.req.url.q = st.cur.q /\ ~h.req.url.frag)
-G07_connectionClose(cfg, st, h) == Tun(cfg, st) \/ h.req.conn = <<"close">>
+  Tun(cfg, st) \/ TransportBroke(cfg) \/ (NormPath(h.req.url.path) = NormPath(st.cur.path) /\ h.req.url.q = st.cur.q /\ ~h.req.url.frag)
+G07_connectionClose(cfg, st, h) == Tun(cfg, st) \/ TransportBroke(cfg) \/ h.req.conn = <<"close">>
 \* caller-supplied header operations <<name, value>> (set) or <<name, value, TRUE>> (append), in order:
 \* set replaces every earlier value of that name, append adds one
 IsAppend(op) == Len(op) = 3 /\ op[3]
@@ -140,10 +144,10 @@ CallerHeadersKept(cfg, h) ==
        \/ name \in DefaultNames          \* judged by G07_defaultHeaders
        \/ ObservedValues(h.req.hdrs, name) = FoldFrom(FoldOps(cfg.req.headers, name), cfg.defaults.after, name)
 G07_queryAndHeaders(cfg, st, h) ==
-  Tun(cfg, st) \/ ((st.hops = 0 => h.req.qmatch = h.req.qpairs) /\ CallerHeadersKept(cfg, h) /\ h.req.authOk)
+  Tun(cfg, st) \/ TransportBroke(cfg) \/ ((st.hops = 0 => h.req.qmatch = h.req.qpairs) /\ CallerHeadersKept(cfg, h) /\ h.req.authOk)
 \* the fields the library supplies or overrides (RequestDefaults.tla), on every hop
 G07_defaultHeaders(cfg, st, h) ==
-  (Tun(cfg, st) \/ cfg.defaults.session) \/
+  (Tun(cfg, st) \/ TransportBroke(cfg) \/ cfg.defaults.session) \/
   \A name \in DefaultNames : ObservedValues(h.req.hdrs, name) = ExpectedValues(cfg.defaults, name)
 G07_noSecretsToProxy(cfg, st, h) == TRUE
 
@@ -193,7 +197,7 @@ AfterHop(cfg, st) == [After(cfg, st) EXCEPT !.hops = @ + 1]
 (* ---------------------------------------------------------------------- *)
 SameUrlModFragment(a, b) == SameUrl(a, b)
 G09_outcome(cfg, st, d) ==
-  CASE cfg.defaults.bodyFails -> d.res = "err"       \* the body's error is the call's error
+  CASE cfg.defaults.bodyFails \/ TransportBroke(cfg) -> d.res = "err"       \* the body's / the transport's error is the call's error
     [] st.expect.k = "ok"  -> d.res = "ok" /\ d.status = st.expect.status
     [] st.expect.k = "err" -> d.res = "err" /\ (st.expect.what = "TooManyRedirections" => d.kind = "TooManyRedirections")
     [] OTHER -> d.res = "err"      \* stopped although another request was due: only an error can explain that
